@@ -19,7 +19,9 @@
 Project distribution.
 """
 import collections
+import contextlib
 import functools
+import importlib.util
 import json
 import logging
 import pathlib
@@ -273,3 +275,7 @@ class Manifest(collections.namedtuple('Manifest', 'name, version, package, modul
                     name=self.name, version=self.version, package=self.package, modules=json.dumps(dict(self.modules))
                 )
             )
+        # the manifest is read back by importing it - drop the bytecode cached for an earlier manifest of this path
+        # (the interpreter trusts it whenever the source size and mtime second still match)
+        with contextlib.suppress(NotImplementedError, OSError):
+            pathlib.Path(importlib.util.cache_from_source(str(path))).unlink(missing_ok=True)
